@@ -130,7 +130,7 @@ func main() {
 			}
 		}
 	case "probes":
-		for _, l := range runProbes() {
+		for _, l := range runProbes(*start) {
 			fmt.Fprintln(w, l)
 		}
 	case "malformed":
